@@ -26,17 +26,19 @@ use bitcoin::block::Header;
 use bitcoin::{Amount, BlockHash, OutPoint, Transaction, Txid};
 
 use lightning::chain::chaininterface::{BroadcasterInterface, TransactionType};
-use lightning::chain::channelmonitor::{ChannelMonitor, ANTI_REORG_DELAY};
+use lightning::chain::channelmonitor::{ChannelMonitor, ChannelMonitorUpdate, ANTI_REORG_DELAY};
 use lightning::chain::verif_hooks_package::monitor_event_summary;
 use lightning::chain::BlockLocator;
 use lightning::events::bump_transaction::BumpTransactionEvent;
 use lightning::events::Event;
 use lightning::ln::functional_test_utils::*;
-use lightning::ln::msgs::BaseMessageHandler;
+use lightning::ln::channelmanager::PaymentId;
+use lightning::ln::msgs::{BaseMessageHandler, ChannelMessageHandler, MessageSendEvent};
+use lightning::ln::outbound_payment::RecipientOnionFields;
 use lightning::sign::SpendableOutputDescriptor;
 use lightning::util::ser::{ReadableArgs, Writeable};
 use lightning::util::test_channel_signer::TestChannelSigner;
-use lightning::get_local_commitment_txn;
+use lightning::{get_local_commitment_txn, get_route_and_payment_hash};
 use verif_harness::Rng;
 
 static PANIC_MSG: Mutex<String> = Mutex::new(String::new());
@@ -96,6 +98,11 @@ struct Clone_<'a> {
 	spendable: Vec<String>,
 	/// the clone's own chain: height -> block id, and where each transaction is confirmed
 	conf: HashMap<Txid, u32>,
+	conf_hash: HashMap<Txid, BlockHash>,
+	/// transactions that have been ANTI_REORG_DELAY deep in this clone's chain at some point
+	buried: BTreeSet<Txid>,
+	/// highest tip this clone was ever told
+	max_best: u32,
 	commit_txid: Txid,
 	trace: Vec<String>,
 	txidx: &'a BTreeMap<Txid, usize>,
@@ -106,12 +113,18 @@ struct Clone_<'a> {
 impl<'a> Clone_<'a> {
 	fn observe(&mut self, op: String) -> Result<(), Fail> {
 		let best = self.mon.current_best_block().height;
+		self.max_best = self.max_best.max(best);
+		for (t, c) in self.conf.iter() {
+			if c + ANTI_REORG_DELAY - 1 <= best {
+				self.buried.insert(*t);
+			}
+		}
 		for ev in self.mon.get_and_clear_pending_monitor_events() {
 			let s = monitor_event_summary(&ev);
 			if s.starts_with("htlc:") && s.split(':').nth(2) == Some("0") {
 				// a fail-back: irreversible, needs the commitment ANTI_REORG_DELAY deep
 				match self.conf.get(&self.commit_txid) {
-					Some(c) if c + ANTI_REORG_DELAY - 1 <= best => {},
+					_ if self.buried.contains(&self.commit_txid) => {},
 					other => {
 						return fail(
 							"HTLC failed back before the closing transaction was buried",
@@ -139,7 +152,7 @@ impl<'a> Clone_<'a> {
 						SpendableOutputDescriptor::StaticPaymentOutput(x) => x.outpoint.into_bitcoin_outpoint(),
 					};
 					match self.conf.get(&op.txid) {
-						Some(c) if c + ANTI_REORG_DELAY - 1 <= best => {},
+						_ if self.buried.contains(&op.txid) => {},
 						other => {
 							return fail(
 								"spendable output announced before its transaction was buried",
@@ -149,6 +162,37 @@ impl<'a> Clone_<'a> {
 					}
 					self.spendable.push(format!("{}", op));
 				}
+			}
+		}
+		// every awaiting entry carries the height at which ITS transaction confirmed in this clone's chain
+		// (never the tip at the time the entry was created): only then does a reorg retract it exactly
+		// when the transaction it depends on is retracted
+		// (all entries of the monitor's own list through the read-only hook, not only the one per txid that
+		// get_relevant_txids shows; the claim handler's entries through get_relevant_txids)
+		let mut listed: Vec<(Txid, u32, Option<BlockHash>, &'static str)> = self.mon.verif_awaiting_entries().into_iter().map(|(t, h, b, _, k)| (t, h, b, k)).collect();
+		listed.extend(self.mon.get_relevant_txids().into_iter().map(|(t, h, b)| (t, h, b, "relevant")));
+		for (t, h, bh, kind) in listed {
+			match self.conf.get(&t) {
+				Some(c) if *c == h => {},
+				other => {
+					return fail(
+						"an awaiting entry does not carry the confirmation height of its transaction",
+						format!("{} entry on txid {} stamped with height {} but confirmed at {:?} (best height {}, after {})", kind, t, h, other, best, op),
+					)
+				},
+			}
+			if let Some(bh) = bh {
+				if self.conf_hash.get(&t) != Some(&bh) {
+					return fail(
+						"an awaiting entry does not carry the block hash of its transaction's confirmation",
+						format!("{} entry on txid {} stamped with block {} but confirmed in {:?} (height {}, after {})", kind, t, bh, self.conf_hash.get(&t), h, op),
+					);
+				}
+			}
+		}
+		for (t, h, _, thr, kind) in self.mon.verif_awaiting_entries() {
+			if thr + 1 < h + ANTI_REORG_DELAY {
+				return fail("an awaiting entry matures before its transaction is ANTI_REORG_DELAY deep", format!("{} entry on txid {} height {} threshold {}", kind, t, h, thr));
 			}
 		}
 		if self.want_trace {
@@ -168,6 +212,7 @@ impl<'a> Clone_<'a> {
 		self.mon.transactions_confirmed(&b.header, &txdata, b.height, &NullBroadcaster, self.fee, self.logger);
 		for t in txs {
 			self.conf.insert(t.compute_txid(), b.height);
+			self.conf_hash.insert(t.compute_txid(), b.header.block_hash());
 		}
 		let ids: Vec<String> = txs.iter().map(|t| self.txidx[&t.compute_txid()].to_string()).collect();
 		self.observe(format!("C{}.{}:{}", b.id, b.height, ids.join(",")))
@@ -181,6 +226,7 @@ impl<'a> Clone_<'a> {
 		self.mon.block_connected(&b.header, &txdata, b.height, &NullBroadcaster, self.fee, self.logger);
 		for t in &b.txs {
 			self.conf.insert(t.compute_txid(), b.height);
+			self.conf_hash.insert(t.compute_txid(), b.header.block_hash());
 		}
 		let ids: Vec<String> = b.txs.iter().map(|t| self.txidx[&t.compute_txid()].to_string()).collect();
 		self.observe(format!("C{}.{}:{}", b.id, b.height, ids.join(",")))
@@ -194,6 +240,14 @@ impl<'a> Clone_<'a> {
 		self.mon.transaction_unconfirmed(txid, &NullBroadcaster, self.fee, self.logger);
 		self.conf.remove(txid);
 		self.observe(format!("R{}", self.txidx.get(txid).copied().unwrap_or(9999)))
+	}
+	fn apply_updates(&mut self, ups: &[ChannelMonitorUpdate]) -> Result<(), Fail> {
+		for u in ups {
+			// refused (Err) after the funding output was spent, but applied all the same
+			let _ = self.mon.update_monitor(u, &NullBroadcaster, self.fee, self.logger);
+		}
+		let dep = self.txidx.get(&self.commit_txid).copied().unwrap_or(9999);
+		self.observe(format!("A{}", dep))
 	}
 	fn view(&self) -> View {
 		let mut balances: Vec<String> = self.mon.get_claimable_balances().iter().map(|b| format!("{:?}", b)).collect();
@@ -215,6 +269,8 @@ struct Out {
 	clones: usize,
 	ops: usize,
 	detours: usize,
+	/// clones that were given monitor updates after the closing transaction had confirmed
+	late: usize,
 	traces: Vec<String>,
 	cfg: String,
 }
@@ -281,6 +337,44 @@ fn scenario(seed: u64, want_model: bool) -> Result<Out, Fail> {
 	}
 	// ---- snapshot of both monitors before anything happens on chain
 	let snaps: Vec<Vec<u8>> = (0..2).map(|i| nodes[i].chain_monitor.chain_monitor.get_monitor(chan_id).unwrap().encode()).collect();
+	let snap_update_id: Vec<u64> = (0..2).map(|i| nodes[i].chain_monitor.chain_monitor.get_monitor(chan_id).unwrap().get_latest_update_id()).collect();
+	// ---- updates dispatched after the snapshot: a new outbound HTLC (new counterparty commitment for
+	// the sender, new holder commitment for the receiver), sometimes the whole round trip. The channel is
+	// nevertheless closed by the commitment captured above, so the new HTLC is in no confirmed transaction.
+	let mut rx = Rng(seed.wrapping_mul(0xA24B_AED4_963E_E407) ^ 0x1A7E);
+	let n_late = rx.below(3);
+	if n_late > 0 {
+		let x = rx.below(2) as usize;
+		let y = 1 - x;
+		let amt = if rx.below(3) == 0 { 100_000 + rx.below(200_000) } else { 1_500_000 + rx.below(6_000_000) };
+		let (route, hash, _pre, secret) = get_route_and_payment_hash!(nodes[x], nodes[y], amt);
+		if nodes[x].node.send_payment_with_route(route, hash, RecipientOnionFields::secret_only(secret, amt), PaymentId(hash.0)).is_ok() {
+			let mut evs = nodes[x].node.get_and_clear_pending_msg_events();
+			if !evs.is_empty() {
+				let ev = SendEvent::from_event(evs.remove(0));
+				nodes[y].node.handle_update_add_htlc(ids[x], &ev.msgs[0]);
+				nodes[y].node.handle_commitment_signed_batch_test(ids[x], &ev.commitment_msg);
+				// only if the sender closes: otherwise the receiver's old commitment would be REVOKED (C06's subject)
+				if n_late == 2 && closer == x {
+					// y's revocation and commitment go back to x; x's answer is lost
+					for m in nodes[y].node.get_and_clear_pending_msg_events() {
+						match m {
+							MessageSendEvent::SendRevokeAndACK { msg, .. } => nodes[x].node.handle_revoke_and_ack(ids[y], &msg),
+							MessageSendEvent::UpdateHTLCs { updates, .. } => nodes[x].node.handle_commitment_signed_batch_test(ids[y], &updates.commitment_signed),
+							_ => {},
+						}
+					}
+				}
+			}
+		}
+		drain(0);
+		drain(1);
+	}
+	let late_updates: Vec<Vec<ChannelMonitorUpdate>> = (0..2)
+		.map(|i| {
+			nodes[i].chain_monitor.monitor_updates.lock().unwrap().get(&chan_id).map(|v| v.iter().filter(|u| u.update_id > snap_update_id[i]).cloned().collect()).unwrap_or_default()
+		})
+		.collect();
 	let start_height = nodes[0].best_block_info().1;
 	let start_hash = nodes[0].best_block_hash();
 	let start_blk = Blk { header: nodes[0].get_block_header(start_height), height: start_height, txs: vec![], id: start_height as u64 };
@@ -410,7 +504,7 @@ fn scenario(seed: u64, want_model: bool) -> Result<Out, Fail> {
 		blkid.insert(b.header.block_hash(), b.id);
 	}
 
-	let mut out = Out { blocks: chain.len(), clones: 0, ops: 0, detours: 0, traces: Vec::new(), cfg };
+	let mut out = Out { blocks: chain.len(), clones: 0, ops: 0, detours: 0, late: 0, traces: Vec::new(), cfg };
 	let mut next_fork_id = 1_000_000u64;
 	for node in 0..2 {
 		let mut reference: Option<View> = None;
@@ -428,6 +522,9 @@ fn scenario(seed: u64, want_model: bool) -> Result<Out, Fail> {
 				mon_events: BTreeSet::new(),
 				spendable: Vec::new(),
 				conf: HashMap::new(),
+				conf_hash: HashMap::new(),
+				buried: BTreeSet::new(),
+				max_best: 0,
 				commit_txid: ctxid,
 				trace: Vec::new(),
 				txidx: &txidx,
@@ -449,16 +546,74 @@ fn scenario(seed: u64, want_model: bool) -> Result<Out, Fail> {
 					}
 				}
 			}
+			// where the commitment confirms, when the late monitor updates are applied (None: before any block;
+			// Some(i): right after block i was delivered), detours that first rewind some real blocks
+			let ci = chain.iter().position(|x| x.txs.iter().any(|t| t.compute_txid() == ctxid)).unwrap_or(0);
+			let mut upd_idx: Option<usize> = if style == 0 || r2.below(3) == 0 { None } else { Some((ci + r2.below(8) as usize).min(chain.len() - 1)) };
+			let mut rewind: BTreeMap<usize, usize> = BTreeMap::new();
+			if style == 7 || style == 8 {
+				for d in detour_at.iter() {
+					if r2.below(2) == 0 && *d > 0 {
+						rewind.insert(*d, 1 + r2.below((*d).min(4) as u64) as usize);
+					}
+				}
+				if r2.below(3) != 0 && ci + 7 < chain.len() {
+					// aimed at the window between confirmation and burial of the closing transaction: updates
+					// applied at some depth, then a reorganisation that does not reach the closing transaction
+					let dd = 1 + r2.below(5) as usize;
+					let at = ci + 1 + dd;
+					detour_at.insert(at);
+					rewind.insert(at, 1 + r2.below(dd as u64) as usize);
+					if !late_updates[node].is_empty() {
+						upd_idx = Some(ci + 1 + r2.below(dd as u64) as usize);
+					}
+				}
+			}
+			// only updates a deferred monitor write can really delay past the close: new counterparty
+			// commitments (a holder-commitment update cannot follow the holder's own broadcast)
+			let can_be_late = late_updates[node].iter().all(|u| lightning::ln::verif_hooks::update_step_kinds(u).iter().all(|k| k.starts_with("LatestCounterpartyCommitment")));
+			if !can_be_late {
+				upd_idx = None;
+			}
+			if late_updates[node].is_empty() {
+				upd_idx = None;
+			} else if upd_idx.is_none() {
+				c.apply_updates(&late_updates[node])?;
+			}
 			for (bi, b) in chain.iter().enumerate() {
 				let last = bi + 1 == chain.len();
 				if detour_at.contains(&bi) {
-					// fork on top of the block before `b`: the next real blocks' transactions, shifted
+					// fork on top of the block before `b` (or, rewinding, of an earlier one): the next real
+					// blocks' transactions, shifted
 					out.detours += 1;
 					let depth = 1 + r2.below(ANTI_REORG_DELAY as u64 - 1) as usize;
-					let fp = if bi == 0 { start_blk.clone() } else { chain[bi - 1].clone() };
+					let mut back = rewind.get(&bi).copied().unwrap_or(0).min(bi);
+					// shallow only: never disconnect ANTI_REORG_DELAY or more blocks below the highest tip this
+					// clone has seen (an earlier detour may have carried it above the real chain)
+					while back > 0 && (if bi == back { start_blk.height } else { chain[bi - 1 - back].height }) + ANTI_REORG_DELAY <= c.max_best {
+						back -= 1;
+					}
+					let fp = if bi == back { start_blk.clone() } else { chain[bi - 1 - back].clone() };
+					if back > 0 {
+						// the last `back` real blocks are disconnected first (and delivered again afterwards)
+						if style == 7 {
+							c.bd(&fp)?;
+						} else {
+							loop {
+								let stale: Vec<Txid> = c.mon.get_relevant_txids().into_iter().filter(|(_, h, _)| *h > fp.height).map(|x| x.0).collect();
+								match stale.first() {
+									Some(t) => c.tu(t)?,
+									None => break,
+								}
+							}
+							c.bb(&fp)?;
+							c.conf.retain(|_, h| *h <= fp.height);
+						}
+					}
 					let mut prev = fp.header.block_hash();
 					let mut fork: Vec<Blk> = Vec::new();
-					let mut pool: Vec<Transaction> = chain[bi..(bi + 2).min(chain.len())].iter().flat_map(|x| x.txs.clone()).collect();
+					// (with the rewound blocks' own transactions first, so that no child comes without its parent)
+					let mut pool: Vec<Transaction> = chain[bi - back..(bi + 2).min(chain.len())].iter().flat_map(|x| x.txs.clone()).collect();
 					for d in 0..depth {
 						let txs: Vec<Transaction> = if d == 0 && r2.below(3) != 0 { std::mem::take(&mut pool) } else { Vec::new() };
 						let blk = create_dummy_block(prev, 7_000_000 + next_fork_id as u32, txs.clone());
@@ -521,6 +676,14 @@ fn scenario(seed: u64, want_model: bool) -> Result<Out, Fail> {
 							format!("node {} style {} fork of depth {} on height {}: relevant {:?} vs {:?}; balances {:?} vs {:?}", node, style, depth, fp.height, a, e, ba, be),
 						);
 					}
+					for rb in chain[bi - back..bi].iter() {
+						if style == 7 {
+							c.bc(rb)?;
+						} else {
+							c.tc(rb, &rb.txs)?;
+							c.bb(rb)?;
+						}
+					}
 				}
 				match style {
 					0 | 7 => c.bc(b)?,
@@ -577,6 +740,12 @@ fn scenario(seed: u64, want_model: bool) -> Result<Out, Fail> {
 						},
 					},
 				}
+				if upd_idx == Some(bi) {
+					if bi >= ci {
+						out.late += 1;
+					}
+					c.apply_updates(&late_updates[node])?;
+				}
 			}
 			out.clones += 1;
 			out.ops += c.trace.len();
@@ -586,6 +755,9 @@ fn scenario(seed: u64, want_model: bool) -> Result<Out, Fail> {
 				let mut first: HashMap<usize, (u32, Option<u32>)> = HashMap::new();
 				for t in c.trace.iter() {
 					let (op, obs) = t.split_once('=').unwrap();
+					if op.starts_with('A') || op.starts_with('R') {
+						continue;
+					}
 					let h: u32 = op[1..].split(':').next().unwrap().split('.').nth(1).unwrap().parse().unwrap();
 					let present: BTreeSet<usize> = obs.split(',').filter(|x| !x.is_empty()).map(|x| x.split('.').next().unwrap().parse().unwrap()).collect();
 					for p in present.iter() {
@@ -633,7 +805,7 @@ fn scenario(seed: u64, want_model: bool) -> Result<Out, Fail> {
 				if v.spendable != r.spendable {
 					diff.push(format!("spendable outputs {:?} vs {:?}", v.spendable, r.spendable));
 				}
-				return fail("deliveries of the same chain disagree", format!("node {} style {} vs whole blocks: {}", node, style, diff.join("; ")));
+				return fail("deliveries of the same chain disagree", format!("node {} style {} vs whole blocks: {}; ops of this clone: {}", node, style, diff.join("; "), c.trace.join(" ")));
 			}
 			if want_model {
 				out.traces.push(format!("N{} S{} H{} X{} | {}", node, style, start_height, deltas.join(","), c.trace.join(" ")));
@@ -648,13 +820,14 @@ fn run_one(seed: u64, model: bool) -> String {
 	let r = panic::catch_unwind(AssertUnwindSafe(|| scenario(seed, model)));
 	match r {
 		Ok(Ok(o)) => format!(
-			"R {{\"seed\":{},\"ok\":true,\"cfg\":{},\"blocks\":{},\"clones\":{},\"ops\":{},\"detours\":{}{}}}",
+			"R {{\"seed\":{},\"ok\":true,\"cfg\":{},\"blocks\":{},\"clones\":{},\"ops\":{},\"detours\":{},\"late\":{}{}}}",
 			seed,
 			o.cfg,
 			o.blocks,
 			o.clones,
 			o.ops,
 			o.detours,
+			o.late,
 			if model { format!(",\"traces\":[{}]", o.traces.iter().map(|t| jstr(t)).collect::<Vec<_>>().join(",")) } else { String::new() }
 		),
 		Ok(Err(f)) => format!("R {{\"seed\":{},\"ok\":false,\"why\":{},\"detail\":{}}}", seed, jstr(&f.why), jstr(&f.detail)),
